@@ -1,7 +1,7 @@
 (* The single place where extraction directives live (trusted base). *)
 From Coq Require Import ExtrOcamlBasic.
 From Coq Require Import ZArith.
-From Dwgrep Require Import IntModel.
+From Dwgrep Require Import IntModel CovModel.
 
 Extraction Blacklist String List Nat Int.
 
@@ -9,4 +9,8 @@ Extraction "extract/out/zwm.ml"
   IntM.add IntM.sub IntM.mul IntM.div IntM.modulo IntM.neg
   IntM.lt IntM.gt IntM.le IntM.ge IntM.eq IntM.ne
   IntM.ival IntM.wfb IntM.in_rangeb Z.div Z.modulo Z.add Z.sub Z.mul Z.opp
-  Z.ltb Z.leb Z.eqb Z.of_nat Z.to_nat.
+  Z.ltb Z.leb Z.eqb Z.of_nat Z.to_nat
+  CovM.add CovM.remove CovM.is_covered CovM.is_overlap CovM.intersect CovM.add_all CovM.remove_all
+  CovM.w_aset CovM.w_add CovM.w_sub CovM.w_add_cst CovM.w_sub_cst CovM.w_overlap CovM.w_contains_cst
+  CovM.w_contains CovM.w_overlaps CovM.w_empty CovM.w_length CovM.w_low CovM.w_high CovM.w_range CovM.w_cmp
+  CovM.memb CovM.Invb.
